@@ -237,6 +237,7 @@ TYPING_OPTIONS = [
     ("use_title_as_name", [True]),
     ("allow_population_by_field_name", [True]),
     ("output_datetime_class", ["AwareDatetime", "NaiveDatetime"]),
+    ("strict_nullable", [True]),
 ]
 TARGETS = ["3.9", "3.10", "3.11", "3.12"]  # 3.13: generate() raises KeyError(PythonVersion.PY_313) with the black of this environment
 
